@@ -9,12 +9,12 @@ open Rx Rx.Gen.CombineLatest
 def absCombine (g : CombineLatestObserver) : St2 := .combine g.observer.isSome g.a g.b g.completed_one
 
 theorem tie_Combine_a_next (g : CombineLatestObserver) (h : g.binary_op = Val.pair) (v : Val) :
-    (AObserver.next g v).map (fun r => (absCombine r.1, r.2)) = some (St2.step (absCombine g) .a (.next v)) := by
+    (AObserver.next g v).map (fun r => (absCombine r.1, r.2)) = some (Rs.lift (St2.step (absCombine g) .a (.next v))) := by
   rcases g with ⟨_ | _, a, _ | b, op, c⟩ <;> simp only at h <;> subst h <;>
     rs_tie [AObserver.next, CombineLatestObserver.next, absCombine, St2.step, St2.guard]
 
 theorem tie_Combine_b_next (g : CombineLatestObserver) (h : g.binary_op = Val.pair) (v : Val) :
-    (BObserver.next g v).map (fun r => (absCombine r.1, r.2)) = some (St2.step (absCombine g) .b (.next v)) := by
+    (BObserver.next g v).map (fun r => (absCombine r.1, r.2)) = some (Rs.lift (St2.step (absCombine g) .b (.next v))) := by
   rcases g with ⟨_ | _, _ | a, b, op, c⟩ <;> simp only at h <;> subst h <;>
     rs_tie [BObserver.next, CombineLatestObserver.next, absCombine, St2.step, St2.guard]
 
@@ -25,19 +25,19 @@ theorem tie_Combine_next_keeps_op (g : CombineLatestObserver) (v : Val) :
     rs_tie [AObserver.next, BObserver.next, CombineLatestObserver.next]
 
 theorem tie_Combine_a_error (g : CombineLatestObserver) (e : Err) :
-    (AObserver.error g e).map (fun r => (absCombine r.1, r.2)) = some (St2.step (absCombine g) .a (.error e)) := by
+    (AObserver.error g e).map (fun r => (absCombine r.1, r.2)) = some (Rs.lift (St2.step (absCombine g) .a (.error e))) := by
   rcases g with ⟨_ | _, a, b, op, c⟩ <;> rs_tie [AObserver.error, CombineLatestObserver.error, absCombine, St2.step, St2.guard]
 
 theorem tie_Combine_b_error (g : CombineLatestObserver) (e : Err) :
-    (BObserver.error g e).map (fun r => (absCombine r.1, r.2)) = some (St2.step (absCombine g) .b (.error e)) := by
+    (BObserver.error g e).map (fun r => (absCombine r.1, r.2)) = some (Rs.lift (St2.step (absCombine g) .b (.error e))) := by
   rcases g with ⟨_ | _, a, b, op, c⟩ <;> rs_tie [BObserver.error, CombineLatestObserver.error, absCombine, St2.step, St2.guard]
 
 theorem tie_Combine_a_complete (g : CombineLatestObserver) :
-    (AObserver.complete g).map (fun r => (absCombine r.1, r.2)) = some (St2.step (absCombine g) .a .complete) := by
+    (AObserver.complete g).map (fun r => (absCombine r.1, r.2)) = some (Rs.lift (St2.step (absCombine g) .a .complete)) := by
   rcases g with ⟨_ | _, a, b, op, _ | _⟩ <;> rs_tie [AObserver.complete, CombineLatestObserver.complete, absCombine, St2.step, St2.guard]
 
 theorem tie_Combine_b_complete (g : CombineLatestObserver) :
-    (BObserver.complete g).map (fun r => (absCombine r.1, r.2)) = some (St2.step (absCombine g) .b .complete) := by
+    (BObserver.complete g).map (fun r => (absCombine r.1, r.2)) = some (Rs.lift (St2.step (absCombine g) .b .complete)) := by
   rcases g with ⟨_ | _, a, b, op, _ | _⟩ <;> rs_tie [BObserver.complete, CombineLatestObserver.complete, absCombine, St2.step, St2.guard]
 
 
